@@ -398,6 +398,23 @@ class Interp:
             return v.item
         if isinstance(v, Tup) and isinstance(e.slice, ast.Constant) and isinstance(e.slice.value, int):
             return v.items[e.slice.value]
+        if isinstance(v, Tup) and isinstance(e.slice, ast.Slice):
+            parts = []
+            for b in (e.slice.lower, e.slice.upper, e.slice.step):
+                if b is None:
+                    parts.append(None)
+                    continue
+                c = self.ev(b, env, f)
+                if not (isinstance(c, Const) and (c.v is None or (isinstance(c.v, int) and not isinstance(c.v, bool)))):
+                    raise AnalysisError(f"abstract evaluator: slice bound `{short(b)}` of {c!r}")
+                parts.append(c.v)
+            return Tup(tuple(v.items[slice(*parts)]))
+        if isinstance(v, Tup):
+            i = self.ev(e.slice, env, f)
+            if isinstance(i, Const) and isinstance(i.v, int) and not isinstance(i.v, bool):
+                if not -len(v.items) <= i.v < len(v.items):
+                    raise Raised("IndexError")
+                return v.items[i.v]
         raise AnalysisError(f"abstract evaluator: subscript `{short(e)}` of {v!r}")
 
     def run_function_node(self, node: ast.AST, owner: FuncInfo, args: List[Any], closure: Dict[str, Any]):
@@ -593,6 +610,33 @@ class Interp:
             seq = self.ev(e.args[0], env, f)
             if isinstance(seq, Tup):
                 return seq
+        if name == "reversed" and len(e.args) == 1 and not e.keywords:
+            seq = self.ev(e.args[0], env, f)
+            if not isinstance(seq, Tup):
+                raise AnalysisError(f"abstract evaluator: reversed() over {seq!r}")
+            return Tup(tuple(reversed(seq.items)))
+        if name == "len" and len(e.args) == 1:
+            seq = self.ev(e.args[0], env, f)
+            if isinstance(seq, Tup):
+                return Const(len(seq.items))
+        if name == "enumerate" and len(e.args) == 1 and not e.keywords:
+            seq = self.ev(e.args[0], env, f)
+            if isinstance(seq, Tup):
+                return Tup(tuple(Tup((Const(i), x)) for i, x in enumerate(seq.items)))
+        if name == "zip" and e.args and all(k.arg == "strict" for k in e.keywords):
+            seqs = [self.ev(a, env, f) for a in e.args]
+            if all(isinstance(q, Tup) for q in seqs):
+                return Tup(tuple(Tup(tuple(xs)) for xs in zip(*(q.items for q in seqs))))
+        if name == "range" and 1 <= len(e.args) <= 3 and not e.keywords:
+            bs = [self.ev(a, env, f) for a in e.args]
+            if all(isinstance(b, Const) and isinstance(b.v, int) and not isinstance(b.v, bool) for b in bs) and len(range(*[b.v for b in bs])) <= 64:
+                return Tup(tuple(Const(i) for i in range(*[b.v for b in bs])))
+        if name in ("max", "min") and e.args and not e.keywords:
+            vals = [self.ev(a, env, f) for a in e.args]
+            if len(vals) == 1 and isinstance(vals[0], Tup):
+                vals = list(vals[0].items)
+            if vals and all(isinstance(b, Const) and isinstance(b.v, int) and not isinstance(b.v, bool) for b in vals):
+                return Const((max if name == "max" else min)(b.v for b in vals))
         if name in ("isinstance", "issubclass", "b_isinstance") and len(e.args) == 2:
             x = self.ev(e.args[0], env, f)
             c = self.ev(e.args[1], env, f)
